@@ -124,6 +124,35 @@ func runC38(c *core.Ctx) {
 				}
 			}
 		}
+		// the signal may have been moved, with the statements around it, into a private helper:
+		// the helper's call site then stands for the signal (every successful path of the helper signals)
+		standIn := map[ssa.CallInstruction]ssa.CallInstruction{}
+		if len(sigs) == 0 && an.StepPolicy != nil {
+			isSig := func(x ssa.Instruction) bool {
+				call, ok := x.(*ssa.Call)
+				return ok && an.IsCall(call, "internal/rsync.ReadyTarget.Signal") && an.MentionsField(call.Call.Args[0], "Store", "fsmTarget")
+			}
+			for _, hc := range an.AllCalls(target, false) {
+				g := hc.Common().StaticCallee()
+				if g == nil || len(g.Blocks) == 0 || !an.StepPolicy(g) {
+					continue
+				}
+				res := g.Signature.Results()
+				onlySucc := res.Len() > 0 && an.IsErrorType(res.At(res.Len()-1).Type())
+				if !an.MustDo(g, isSig, 1, onlySucc, core.InModule) {
+					continue
+				}
+				for _, real := range an.CallsTo(g, false, "internal/rsync.ReadyTarget.Signal") {
+					if isSig(real.(ssa.Instruction)) {
+						standIn[hc] = real
+					}
+				}
+				if standIn[hc] != nil {
+					sigs = append(sigs, hc)
+					c.Touch(g)
+				}
+			}
+		}
 		if len(sigs) == 0 {
 			c.Bad("C38.a", "WHO", k.method+":signals-fsmTarget", c.P.Pos(target.Pos()), k.desc+" never advance the FSM target a linearizable read waits on", nil)
 			continue
@@ -132,13 +161,19 @@ func runC38(c *core.Ctx) {
 		why := ""
 		for _, s := range sigs {
 			owner := s.Parent()
-			idxOK := k.idx(target)(s.Common().Args[1]) || k.idx(owner)(s.Common().Args[1])
+			idxArg, idxHost := ssa.Value(nil), owner
+			if real := standIn[s]; real != nil {
+				idxArg, idxHost = real.Common().Args[1], real.Parent()
+			} else {
+				idxArg = s.Common().Args[1]
+			}
+			idxOK := k.idx(target)(idxArg) || k.idx(idxHost)(idxArg)
 			if k.method == "(*FSM).StoreConfiguration" {
-				idxOK = isParamN(target, 1)(s.Common().Args[1])
+				idxOK = isParamN(target, 1)(idxArg)
 			}
 			if !idxOK {
 				ok = false
-				why = "the signalled index is " + an.Canon(s.Common().Args[1]) + ", not the entry's index"
+				why = "the signalled index is " + an.Canon(idxArg) + ", not the entry's index"
 			}
 			if owner == target {
 				// every successful return passes the signal
